@@ -219,7 +219,7 @@ def add_determinants(iterative_interactions: List[Interaction], version: Version
     for interaction in iterative_interactions:
         pair = interaction[0]
         for group in pair:
-            if group in done_group:
+            if any(group is done for done in done_group):
                 # do nothing - already have an iterative object for this group
                 pass
             else:
@@ -327,9 +327,9 @@ def find_iterative(
     iterative0: Optional[Iterative] = None
     iterative1: Optional[Iterative] = None
     for iterative in iteratives:
-        if iterative.group == pair[0]:
+        if iterative.group is pair[0]:
             iterative0 = iterative
-        elif iterative.group == pair[1]:
+        elif iterative.group is pair[1]:
             iterative1 = iterative
     if iterative0 is None or iterative1 is None:
         raise LookupError("iteratives not found")
